@@ -37,6 +37,16 @@ func (y *Yaml) IsFound() bool {
 //	     y.Get("xx").Get("yy").Int()
 //			y.Get("notPresent").IsFound()
 func (y *Yaml) Get(key any) *Yaml {
+	// the content of a mapping alternates keys and values: only the keys are looked at, a scalar
+	// value that happens to read like the key (message: targetClass) is not one
+	if y.data != nil && y.data.Kind == yaml.MappingNode {
+		for i := 0; i+1 < len(y.data.Content); i += 2 {
+			if k := y.data.Content[i]; k.Kind == yaml.ScalarNode && k.Value == key {
+				return &Yaml{y.data.Content[i+1]}
+			}
+		}
+		return &Yaml{nil}
+	}
 	found := false
 	for _, n := range y.data.Content {
 		if found {
